@@ -37,6 +37,10 @@ type Solver struct {
 	transcript io.Writer
 	OneShots    int
 	skipInc     int
+	levels      []incLevel
+	ufLevel     map[string]int
+	curLevel    int
+	defLog      *[]int
 	OneShotWall time.Duration
 }
 
@@ -84,6 +88,7 @@ func (s *Solver) start() error {
 	s.defined = map[int]bool{}
 	s.ufDecl = map[string]bool{}
 	s.ndefs = 0
+	s.levels = nil
 	if s.kind == "cvc5" {
 		s.send("(set-logic ALL)\n")
 	}
@@ -160,6 +165,9 @@ func (s *Solver) define(t *Term, sb *strings.Builder) {
 		stack = stack[:len(stack)-1]
 		s.defined[u.id] = true
 		s.ndefs++
+		if s.defLog != nil {
+			*s.defLog = append(*s.defLog, u.id)
+		}
 		switch u.op {
 		case OpVar:
 			fmt.Fprintf(sb, "(declare-const %s %s)\n", symName(u.name), u.sort())
@@ -168,6 +176,10 @@ func (s *Solver) define(t *Term, sb *strings.Builder) {
 			key := u.name
 			if !s.ufDecl[key] {
 				s.ufDecl[key] = true
+				if s.ufLevel == nil {
+					s.ufLevel = map[string]int{}
+				}
+				s.ufLevel[key] = s.curLevel
 				fmt.Fprintf(sb, "(declare-fun %s (", symName(u.name))
 				for _, a := range u.args {
 					sb.WriteString(a.sort() + " ")
@@ -213,7 +225,7 @@ func (s *Solver) readLine() (string, error) {
 
 // Check decides satisfiability of the conjunction. If wantVals is non-empty and the
 // result is sat, the values of those terms (width <= 64) are returned keyed by term id.
-func (s *Solver) Check(assertions []*Term, wantVals []*Term) (string, map[int]uint64) {
+func (s *Solver) checkFlat(assertions []*Term, wantVals []*Term) (string, map[int]uint64) {
 	t0 := time.Now()
 	defer func() { s.Wall += time.Since(t0) }()
 	s.Queries++
